@@ -80,6 +80,38 @@ class Impl(impl_array.Impl):
                         for n, p in mfa.parameters.items())
         return f"ok P {ps} | F {fs} | S {' ; '.join(ss)} | R {rs}"
 
+    def definition(self):
+        b = self.b
+        dim_objs = [self.get(h, Dimension) for h in b["dims"]]
+        dimdefs = [DimensionDefinition(name=d.name, letter=d.letter, dtype=d.dtype if d.dtype is not None else str)
+                   for d in dim_objs]
+        if b["defletters"] is not None:
+            raise ValueError("to_dfs cases do not restrict the defined letters")
+        flowdefs = [FlowDefinition(from_process_name=f, to_process_name=t, dim_letters=ls, name_override=ov)
+                    for f, t, ls, ov in b["flows"]]
+        stockdefs = [StockDefinition(name=name, process_name=proc, dim_letters=ls, time_letter=tl, subclass=CLS[cls],
+                                     lifetime_model_class=None if lm == "none" else getattr(lm_mod, lm), solver=solver)
+                     for name, proc, ls, tl, cls, lm, solver in b["stocks"]]
+        paramdefs = [ParameterDefinition(name=n, dim_letters=ls) for n, ls, _ in b["params"]]
+        return MFADefinition(dimensions=dimdefs, processes=b["procs"], flows=flowdefs, stocks=stockdefs, parameters=paramdefs)
+
+    def todfs(self):
+        dfs = self.definition().to_dfs()
+
+        def cell(v):
+            if v is None:
+                return "None"
+            if isinstance(v, tuple):
+                return "+".join(v) if v else "()"
+            if isinstance(v, type):
+                return v.__name__
+            return tilde(str(v))
+        out = []
+        for kind, df in dfs.items():
+            rows = [",".join(cell(v) for v in row) for row in df.itertuples(index=False, name=None)]
+            out.append(f"{kind}: {','.join(df.columns)} | " + " ; ".join(rows))
+        return "ok " + " || ".join(out)
+
     def build(self):
         b = self.b
         dim_objs = [self.get(h, Dimension) for h in b["dims"]]
@@ -202,6 +234,8 @@ class Impl(impl_array.Impl):
             self.b["params"].append((untilde(t[1]), letters_of(t[2]), t[3:])); return "ok"
         if op == "b_build":
             return self.show_system(self.build())
+        if op == "b_todfs":
+            return self.todfs()
         if op == "b_processes":
             ps = make_processes(self.b["procs"])
             return "ok " + ",".join(f"{tilde(n)}:{p.id}" for n, p in ps.items())
